@@ -665,10 +665,18 @@ class Molecule(nx.Graph):
 
     def add_node(self, *args, **kwargs):
         super().add_node(*args, **kwargs)
-        if self.max_node:
-            self.max_node += 1
-        else:
-            self.max_node = 0
+        # max_node caches the largest node key for merge_molecule. It is None
+        # when unknown; once known, keep it exact.
+        if self.max_node is not None:
+            node = args[0] if args else kwargs['node_for_adding']
+            try:
+                self.max_node = max(self.max_node, node)
+            except TypeError:
+                self.max_node = None
+
+    def add_nodes_from(self, *args, **kwargs):
+        super().add_nodes_from(*args, **kwargs)
+        self.max_node = None
 
     def merge_molecule(self, molecule):
         """
@@ -702,7 +710,7 @@ class Molecule(nx.Graph):
                 .format(self.nrexcl, molecule.nrexcl)
             )
         if self.nodes():
-            if not self.max_node:
+            if self.max_node is None:
                 # hopefully it is a small graph when this is called.
                 self.max_node = max(self)
 
@@ -959,6 +967,7 @@ class Molecule(nx.Graph):
         get deleted.
         """
         super().remove_node(node)
+        self.max_node = None
         self._remove_interactions_with_node(node)
 
     def remove_nodes_from(self, nodes):
@@ -968,7 +977,10 @@ class Molecule(nx.Graph):
         interactions list separately which is not a part of
         the graph and hence does not get deleted.
         """
+        # nodes can be any iterable, including a generator: it is traversed twice.
+        nodes = list(nodes)
         super().remove_nodes_from(nodes)
+        self.max_node = None
         for node in nodes:
             self._remove_interactions_with_node(node)
 
